@@ -130,7 +130,7 @@ Definition validate (c : vcfg) : bool :=
   vc_general c && vc_instructions c && vc_operand_sets c
   && forallb (fun m => negb (mem (map lower m) (map (map lower) (vc_keywords c)))) (vc_mnemonics c)
   && forallb (fun m => negb (mem (map lower m) (map (map lower) (vc_keywords c)))) (vc_macros c)
-  && forallb (fun r => negb (mem r (vc_keywords c))) (vc_registers c)
+  && forallb (fun r => negb (mem (map lower r) (map (map lower) (vc_keywords c)))) (vc_registers c)      (* any letter case (D47) *)
   && forallb (fun m => negb (mem (map lower m) (map (map lower) (vc_mnemonics c)))) (vc_macros c)
   && forallb (variant_ok (vc_set_names c)) (vc_variants c)
   && forallb (fun r => mem r (vc_registers c)) (vc_reg_operands c)
